@@ -17,6 +17,9 @@ R14.c  never a hang: every iteration of the ``while`` in
 R14.d  numbering: ``set_operation_attributes`` assigns job_id / position from
        the enumeration indices and a running operation id starting at 0 that
        grows by one per operation, in job-major order.
+R14.e  ``Schedule.to_dict`` emits each machine's job ids in list order: no
+       reordering operator other than a stable sort on start_time[, end_time]
+       (the identity on dispatcher-built lists).
 """
 
 from __future__ import annotations
@@ -39,7 +42,8 @@ MANIFEST = {
         "parameters of mutating callees; the dictionary writers and readers "
         "agree on their keys; each pass of from_job_sequences' loop dispatches "
         "or raises, so it cannot hang; operation ids are dense in job-major "
-        "order. Not decided: the values of the derived views and round-trip "
+        "order; Schedule.to_dict emits each machine list in list order (no "
+        "reordering). Not decided: the values of the derived views and round-trip "
         "equality."
     ),
     "note": "Transformation.__call__ renaming an instance that apply returned unchanged is reported as an observation (outside C14's list of actors). Alias model as in C05.",
